@@ -280,6 +280,160 @@ func eval(c Config) (problems []string, got Outcome, unspecified bool) {
 			}
 		}
 	}
+	problems = append(problems, evalExecuteTo(c, store, dir)...)
+	return
+}
+
+// pendingClass classifies a Pending result the way observe does (without the store inspection).
+func pendingClass(files []migrate.File, perr error) Outcome {
+	var (
+		o   Outcome
+		nl  *migrate.HistoryNonLinearError
+		mm  *migrate.MissingMigrationError
+		ncl *migrate.NotCleanError
+	)
+	switch {
+	case perr == nil:
+		o.Class, o.Pending = "ok", versions(files)
+	case errors.Is(perr, migrate.ErrNoPendingFiles):
+		o.Class = "no-pending"
+	case errors.As(perr, &nl):
+		o.Class, o.OutOfOrder, o.Pending = "non-linear", versions(nl.OutOfOrder), versions(nl.Pending)
+	case errors.As(perr, &mm):
+		o.Class = "missing-migration"
+	case errors.As(perr, &ncl):
+		o.Class = "not-clean"
+	default:
+		o.Class = "error: " + perr.Error()
+	}
+	return o
+}
+
+// evalExecuteTo: ExecuteTo(v) for every version v of the directory (and a missing one). Two oracles:
+// (1) "all pending files up to and including v" - with a checkpoint after v, pending is decided on the
+// directory truncated at v; (2) the executor keeps no state: after ExecuteTo returned (either way), the
+// same executor's Pending equals that of a fresh executor over the same directory and history.
+func evalExecuteTo(c Config, store0 *mighelp.Store, dir *migrate.MemDir) (problems []string) {
+	targets := []string{"9"}
+	for _, f := range c.Files {
+		targets = append(targets, f.V)
+	}
+	for _, v := range targets {
+		st := mighelp.NewStore()
+		st.Revs = store0.Clone()
+		var execs []string
+		drv := &mighelp.Driver{Dirty: c.Dirty, OnExec: func(q string) error { execs = append(execs, strings.TrimSuffix(q, ";")); return nil }}
+		opts := []migrate.ExecutorOption{migrate.WithExecOrder(migrate.ExecOrder(c.Order))}
+		if c.AllowDirty {
+			opts = append(opts, migrate.WithAllowDirty(true))
+		}
+		if c.Baseline != "" {
+			opts = append(opts, migrate.WithBaselineVersion(c.Baseline))
+		}
+		ex, err := migrate.NewExecutor(drv, dir, st, opts...)
+		if err != nil {
+			return []string{"harness: " + err.Error()}
+		}
+		var xerr error
+		func() {
+			defer func() {
+				if p := recover(); p != nil {
+					xerr = fmt.Errorf("panic: %v", p)
+				}
+			}()
+			xerr = ex.ExecuteTo(context.Background(), v)
+		}()
+		if xerr != nil && strings.HasPrefix(xerr.Error(), "panic:") {
+			problems = append(problems, fmt.Sprintf("ExecuteTo(%s): %v", v, xerr))
+			continue
+		}
+		// (1) the documented decision.
+		idx, ckAfter := -1, false
+		for i, f := range c.Files {
+			if f.V == v {
+				idx = i
+			}
+		}
+		if idx >= 0 {
+			for _, f := range c.Files[idx+1:] {
+				ckAfter = ckAfter || f.Ck
+			}
+		}
+		cc := c
+		// the baseline revision may have been recorded by the earlier Pending call of eval.
+		if c.Baseline != "" && len(c.Revs) == 0 && len(store0.Revs) > 0 {
+			cc.Revs = []RevSpec{{V: c.Baseline}}
+			cc.Baseline = ""
+		}
+		if ckAfter {
+			cc.Files = append([]FileSpec(nil), c.Files[:idx+1]...)
+		}
+		want := refPending(cc)
+		var wantExec []string
+		wantErr := idx < 0 || want.Class != "ok"
+		if !wantErr {
+			cut := -1
+			for i, pv := range want.Pending {
+				if pv == v {
+					cut = i
+				}
+			}
+			switch {
+			case ckAfter:
+				cut = len(want.Pending) - 1
+			case cut < 0:
+				wantErr = true
+			}
+			if !wantErr {
+				for _, pv := range want.Pending[:cut+1] {
+					part := false
+					for _, r := range cc.Revs {
+						if r.V == pv && r.Partial {
+							part = true
+						}
+					}
+					if !part {
+						wantExec = append(wantExec, "S_"+pv+"_1")
+					}
+					wantExec = append(wantExec, "S_"+pv+"_2")
+				}
+			}
+		}
+		if want.Class != "unspecified" {
+			switch {
+			case wantErr && xerr == nil:
+				problems = append(problems, fmt.Sprintf("ExecuteTo(%s) succeeded (executed %v); the documented decision %+v leaves nothing to run up to %s", v, execs, want, v))
+			case !wantErr && xerr != nil:
+				problems = append(problems, fmt.Sprintf("ExecuteTo(%s) failed: %v; documented: run %v", v, xerr, wantExec))
+			case !wantErr && !reflect.DeepEqual(execs, wantExec):
+				problems = append(problems, fmt.Sprintf("ExecuteTo(%s) executed %v, want %v", v, execs, wantExec))
+			case wantErr && len(execs) > 0:
+				problems = append(problems, fmt.Sprintf("ExecuteTo(%s) failed (%v) after executing %v", v, xerr, execs))
+			}
+		}
+		// (2) no state is kept in the executor.
+		var a, b Outcome
+		func() {
+			defer func() {
+				if p := recover(); p != nil {
+					a.Class = fmt.Sprintf("panic: %v", p)
+				}
+			}()
+			a = pendingClass(ex.Pending(context.Background()))
+		}()
+		fresh, _ := migrate.NewExecutor(drv, dir, st, opts...)
+		func() {
+			defer func() {
+				if p := recover(); p != nil {
+					b.Class = fmt.Sprintf("panic: %v", p)
+				}
+			}()
+			b = pendingClass(fresh.Pending(context.Background()))
+		}()
+		if !same(a, b) {
+			problems = append(problems, fmt.Sprintf("after ExecuteTo(%s) (err=%v) the same executor decides %+v, a fresh executor %+v", v, xerr, a, b))
+		}
+	}
 	return
 }
 
@@ -346,7 +500,7 @@ func Run(r *report.Run) {
 	if r.Tier == "thorough" {
 		n = 5
 	}
-	r.Rule = fmt.Sprintf("version universe 1..%d; every directory (each version absent / migration file / checkpoint file) x every revision table (any subset of the universe fully applied, last one optionally partial 1/2, recorded with or without an error text) x exec-order {linear, linear-skip, non-linear} x {no option, allow-dirty, baseline=v for every v} x {clean, dirty}; real Executor.Pending on MemDir compared with the set-based reference model refPending; then ExecuteN(n) for every n on the real Executor; plus a BFS (depth 4, thorough 5) over CLI histories on a real SQLite file with the alphabet {add file, add file whose 2nd statement fails, add checkpoint file, add out-of-order file, apply, apply 1, apply --exec-order non-linear / linear-skip, set 2, set 4, fix the failing file, remove the newest file}: in the reached state `migrate status` must report the pending/out-of-order files of the reference model fed with the actual revision rows, `migrate apply [n]` must execute exactly the statements the decision implies (journal table written by the statements), and after `migrate set v` nothing up to v may be pending; non-trivial = configuration with a non-empty directory and a decision other than plain 'all files'; distinct by construction", n)
+	r.Rule = fmt.Sprintf("version universe 1..%d; every directory (each version absent / migration file / checkpoint file) x every revision table (any subset of the universe fully applied, last one optionally partial 1/2, recorded with or without an error text) x exec-order {linear, linear-skip, non-linear} x {no option, allow-dirty, baseline=v for every v} x {clean, dirty}; real Executor.Pending on MemDir compared with the set-based reference model refPending; then ExecuteN(n) for every n and ExecuteTo(v) for every version v on the real Executor (ExecuteTo also: the executor afterwards decides like a fresh one); plus a BFS (depth 4, thorough 5) over CLI histories on a real SQLite file with the alphabet {add file, add file whose 2nd statement fails, add checkpoint file, add out-of-order file, apply, apply 1, apply --exec-order non-linear / linear-skip, set 2, set 4, fix the failing file, remove the newest file}: in the reached state `migrate status` must report the pending/out-of-order files of the reference model fed with the actual revision rows, `migrate apply [n]` must execute exactly the statements the decision implies (journal table written by the statements), and after `migrate set v` nothing up to v may be pending; non-trivial = configuration with a non-empty directory and a decision other than plain 'all files'; distinct by construction", n)
 	r.Assumptions = []string{
 		"versions are fixed-width digit strings so name order and version order coincide",
 		"every file has two statements; a partial revision has Applied=1 of 2 with the executor's own partial hash",
